@@ -315,6 +315,24 @@ class FnText:
                 raise ExtractError('`in` not found in for loop')
         self.log.append(entry)
 
+    def insert_after_loop(self, ordinal, text):
+        ls = self.loops()
+        if ordinal < 1 or ordinal > len(ls):
+            raise ExtractError('fn %s: loop #%d not found (has %d)' % (self.name, ordinal, len(ls)))
+        k = self._loop_body_open(ls[ordinal - 1])
+        c = match_close(self.st, k)
+        self.insert_at(self.st[c].end, '\n' + text + '\n', 'A1 proof block after loop')
+        self.log.append({'op': 'A1 insert after loop', 'loop': ordinal, 'text': text})
+
+    def insert_at_loop_end(self, ordinal, text):
+        ls = self.loops()
+        if ordinal < 1 or ordinal > len(ls):
+            raise ExtractError('fn %s: loop #%d not found (has %d)' % (self.name, ordinal, len(ls)))
+        k = self._loop_body_open(ls[ordinal - 1])
+        c = match_close(self.st, k)
+        self.insert_at(self.st[c].start, '\n' + text + '\n', 'A1 proof block at end of loop body')
+        self.log.append({'op': 'A1 insert at end of loop body', 'loop': ordinal, 'text': text})
+
     # --- A1: anchors -----------------------------------------------------
     def find_anchor(self, anchor, occurrence=1):
         want = [t.text for t in sig(lex(anchor))]
@@ -448,6 +466,22 @@ class FnText:
         self.replace(self.st[a].start, self.st[b].end, call_text, 'O1 outline')
         self.log.append({'op': 'O1 outline expression', 'expression': norm(verb), 'replaced_by': call_text})
         return verb
+
+    # --- W1: wrap an expression in a trusted prelude function -----------------
+    def wrap(self, anchor, fname, occurrence=1):
+        """`anchor` may mark the part to wrap with << >> inside a longer context."""
+        if '<<' in anchor:
+            pre, rest = anchor.split('<<', 1)
+            mid, post = rest.split('>>', 1)
+            npre, nmid = len(sig(lex(pre))), len(sig(lex(mid)))
+            a0, b0 = self.find_anchor(pre + ' ' + mid + ' ' + post, occurrence)
+            a, b = a0 + npre, a0 + npre + nmid - 1
+        else:
+            a, b = self.find_anchor(anchor, occurrence)
+        self.insert_at(self.st[a].start, fname + '(', 'W1 wrap')
+        self.insert_at(self.st[b].end, ')', 'W1 wrap')
+        self.log.append({'op': 'W1 wrap expression in trusted prelude function', 'expression': norm(anchor.replace('<<', ' ').replace('>>', ' ')),
+                         'occurrence': occurrence, 'function': fname})
 
     # --- render ------------------------------------------------------------
     def render(self):
